@@ -71,7 +71,7 @@ fn run_model(cap: usize, tab: &[u8; 4], script: &[Op], choices: u16) -> Option<V
             hbmodel::model::CHOICES[i] = ((choices >> i) & 1) as u8;
         }
     }
-    if hbmodel::model::capacity_to_buckets(cap.max(1)).map_or(true, |b| b > 8) {
+    if hbmodel::model::capacity_to_buckets(cap.max(1)).map_or(true, |b| b > hbmodel::model::MAX_BUCKETS) {
         return None;
     }
     let mut t: Model<(u8, u32)> = Model::with_capacity(cap);
@@ -118,7 +118,7 @@ fn main() {
         ops.push(Op::Find(k));
     }
     let tabs: [[u8; 4]; 4] = [[0, 0, 0, 0], [0, 1, 0, 1], [0, 1, 2, 3], [0, 0, 1, 2]];
-    let caps = [0usize, 1, 3, 4, 7];
+    let caps = [0usize, 1, 3, 4, 7, 8, 14];
     let mut scripts = 0u64;
     let mut mismatches = 0u64;
     let mut tomb_needed = 0u64;
